@@ -317,7 +317,12 @@ struct Comment;
 impl Lexer for Comment {
     fn lex(input: Span) -> IResult {
         let start = input.location_offset();
-        let (input, comment) = delimited(tag("//"), take_till(|c| c == '\n'), tag("\n"))(input)?;
+        // a comment ends with the line, or with the text if there is no further line
+        let (input, comment) = delimited(
+            tag("//"),
+            take_till(|c| c == '\n'),
+            alt((tag("\n"), eof)),
+        )(input)?;
         let end = input.location_offset();
         Ok((
             input,
